@@ -113,7 +113,7 @@ def hard_failure(res):
 def gen_c03(g, budget, optional=False):
     """yields query dicts: clauses, proj, graphs, glo, ghi, alt"""
     qs = []
-    contents = [g.content() for _ in range(6)] + [list(range(1, len(bqlu.TRIPLES) + 1))[:12]]
+    contents = [g.content() for _ in range(6)] + [list(range(1, 13))] + [[1, 2, 3, 13, 14, 20, 26, 27, 28, 29, 30]]
     pool2 = bqlgen.VARS[:3]
     for i in range(budget):
         r = g.rng.random()
@@ -256,6 +256,478 @@ def classify_q(prop, cls, q, r):
     return cls
 
 
+# ------------------------------------------------------------------------------------------ clean base queries
+CONTENTS = [
+    list(range(1, 13)),
+    [1, 2, 3, 13, 14, 20, 26, 27, 28, 29, 30],
+    [6, 7, 8, 21, 25, 9, 10, 31],
+    [1, 4, 5, 19, 22, 6, 7, 8, 9, 10, 11, 12, 18],
+    [15, 16, 17, 2, 3, 26, 27, 28, 29],
+    [],
+]
+
+
+def clean_base(g, max_clauses=2, p_alias=0.15):
+    """A query of the fragment where C03 holds today (no OPTIONAL, every clause has a binding, aliases
+    are fresh names): returns dict(clauses, names, graphs, glo, ghi, alt)."""
+    for _ in range(50):
+        content = g.rng.choice(CONTENTS + [g.content(6, 12), g.content(8, 14), g.content(10, 16)])
+        k = 1 if (max_clauses < 2 or g.rng.random() < 0.7) else g.rng.randint(2, max_clauses)
+        valvar = {}
+        cls = []
+        for _i in range(k):
+            if content and g.rng.random() < 0.85:
+                c = g.seeded_clause(content, valvar, bqlgen.VARS[:4], p_alias=p_alias)
+            else:
+                c = g.clause(bqlgen.VARS[:3], p_alias=p_alias)
+            cls.append(c)
+        ok = True
+        for c in cls:
+            ns = bqlgen.names_of(c)
+            if not ns or len(ns) != len(set(ns)) and c["o"]["id"] in [n for n in ns if ns.count(n) > 1]:
+                ok = False
+        if not ok:
+            continue
+        ngraphs = g.rng.choice([1, 1, 1, 2])
+        return {"clauses": cls, "names": bqlgen.pattern_names(cls), "graphs": g.split(content, ngraphs),
+                "glo": 0, "ghi": 0, "alt": False, "content": content}
+    raise Infra("could not generate a clean base query")
+
+
+def sel_text(b, select, **kw):
+    q = {"select": select, "ngraphs": len(b["graphs"]), "clauses": b["clauses"], "glo": b["glo"], "ghi": b["ghi"], "alt": b["alt"]}
+    q.update(kw)
+    return bqlgen.render_select(q)
+
+
+class Batch:
+    """collects driver cases; after run() results are looked up by handle"""
+
+    def __init__(self):
+        self.cases = []
+
+    def add(self, graphs, text, **cfg):
+        c = {"id": len(self.cases), "graphs": graphs, "text": text}
+        c.update(cfg)
+        self.cases.append(c)
+        return c["id"]
+
+    def run(self, d, tag):
+        self.res = run_cases(self.cases, d, tag)
+
+    def rows(self, h, outnames):
+        """(err, rows) for handle h with columns ordered as outnames; hard failures -> ('panic'/'timeout', [])"""
+        r = self.res[h]
+        hf = hard_failure(r)
+        if hf:
+            return hf, []
+        if r["perr"]:
+            return "perr", []
+        if r["err"]:
+            return "err", []
+        rows = rows_in_order(r, outnames)
+        if rows is None:
+            return "cols", []
+        return "", rows
+
+
+def finish_events(prop, v, events, meta, d, b):
+    """validate events with TLC and report rejects; meta[i] = dict with 'texts' (handles) for event i"""
+    rejects, opens, states = validate(events, d, prop)
+    for idx, p, cls in rejects:
+        m = meta[idx]
+        w = {"class": cls}
+        w.update({k: m[k] for k in m if k != "handles"})
+        w["results"] = [{"text": b.cases[h]["text"], "err": b.res[h]["err"][:200], "rows": b.res[h]["rows"][:8]} for h in m["handles"]]
+        v.reject(cls, w, {"cases": [b.cases[h] for h in m["handles"]], "event": events[idx]})
+    return rejects, opens, states
+
+
+def note_hard(v, b, hs, stats):
+    """report panics / timeouts / dead driver for the handles; returns True if any"""
+    bad = False
+    for h in hs:
+        hf = hard_failure(b.res[h])
+        if hf:
+            v.reject(hf, {"text": b.cases[h]["text"], "graphs": b.cases[h]["graphs"], "panic": b.res[h]["panic"][:300],
+                          "stack": b.res[h].get("stack", [])}, {"case": b.cases[h]})
+            stats["hard"] = stats.get("hard", 0) + 1
+            bad = True
+    return bad
+
+
+# ------------------------------------------------------------------------------------------ C11 GROUP BY
+def check_group(v, tier, d):
+    g = Gen(vlib.seed() * 7919 + 11)
+    n = 3000 if tier == "quick" else 60000
+    b = Batch()
+    plans = []
+    for _ in range(n):
+        base = clean_base(g, max_clauses=2, p_alias=0.1)
+        names = base["names"]
+        if len(names) < 2:
+            continue
+        nk = 1 if g.rng.random() < 0.65 else 2
+        keys = g.rng.sample(names, min(nk, len(names) - 1))
+        rest = [x for x in names if x not in keys]
+        aggs = []
+        for _a in range(g.rng.randint(1, 3)):
+            op = g.rng.choice(["count", "count", "countd", "sum"])
+            aggs.append((op, g.rng.choice(rest)))
+        # base query projects keys + aggregated inputs (deduplicated), grouped query in output order
+        inputs = keys + [x for x in dict.fromkeys(a[1] for a in aggs)]
+        sel, outnames, spec = [], [], []
+        for k in keys:
+            sel.append(k)
+            outnames.append(k)
+            spec.append({"op": "key", "i": inputs.index(k) + 1})
+        for j, (op, x) in enumerate(aggs):
+            al = "?g%d" % j
+            fn = {"count": "COUNT(%s)", "countd": "COUNT(DISTINCT %s)", "sum": "SUM(%s)"}[op] % x
+            sel.append("%s AS %s" % (fn, al))
+            outnames.append(al)
+            spec.append({"op": op, "i": inputs.index(x) + 1})
+        if g.rng.random() < 0.3:  # grouping keys listed in another order / projection order shuffled
+            perm = list(range(len(sel)))
+            g.rng.shuffle(perm)
+            sel, outnames, spec = [sel[i] for i in perm], [outnames[i] for i in perm], [spec[i] for i in perm]
+        hb = b.add(base["graphs"], sel_text(base, inputs))
+        hg = b.add(base["graphs"], sel_text(base, sel, group=keys))
+        plans.append((base, inputs, keys, outnames, spec, hb, hg))
+    b.run(d, "C11")
+    events, meta, stats = [], [], {"skipped_perr": 0}
+    distinct = set()
+    for base, inputs, keys, outnames, spec, hb, hg in plans:
+        if note_hard(v, b, [hb, hg], stats):
+            continue
+        eb, rb = b.rows(hb, inputs)
+        eg, rg = b.rows(hg, outnames)
+        if eb == "perr" or eg == "perr":
+            stats["skipped_perr"] += 1
+            continue
+        if eg == "cols":
+            v.reject("result-columns", {"text": b.cases[hg]["text"], "cols": b.res[hg]["cols"]}, {"case": b.cases[hg]})
+            continue
+        distinct.add(b.cases[hg]["text"])
+        events.append({"ev": "G", "prop": "C11", "keys": [inputs.index(k) + 1 for k in keys], "spec": spec, "base": rb,
+                       "baseerr": eb != "", "rows": rg, "err": eg != ""})
+        meta.append({"handles": [hb, hg], "err": b.res[hg]["err"][:200]})
+    rejects, opens, states = finish_events("C11", v, events, meta, d, b)
+    multi = sum(1 for e in events if len(e["base"]) > len(e["rows"]) > 0)
+    v.cov.update({"states": states, "transitions": len(events), "traces_validated_against_impl": len(events),
+                  "grouped_queries": len(events), "judged": len(events) - opens, "open_not_judged": opens,
+                  "distinct_queries": len(distinct), "with_real_grouping": multi, "empty_base": sum(1 for e in events if not e["base"]),
+                  "parser_rejected_not_judged": stats["skipped_perr"], "rejected_events": len(rejects),
+                  "samples": [{"base": b.cases[m["handles"][0]]["text"], "grouped": b.cases[m["handles"][1]]["text"],
+                               "rows": b.res[m["handles"][1]]["rows"][:3]} for m in meta[:3]]})
+    v.assumptions += ["the grouped result is judged against Group() of the RECORDED ungrouped result of the same pattern (C03 defects do not leak in)",
+                      "sums are judged only when all summed cells of every group are of one numeric kind (quarters, |v| < 2^30)"]
+
+
+# ------------------------------------------------------------------------------------------ C12 ORDER BY / LIMIT
+def check_order(v, tier, d):
+    g = Gen(vlib.seed() * 7919 + 12)
+    n = 1200 if tier == "quick" else 30000
+    b = Batch()
+    plans = []
+    for _ in range(n):
+        base = clean_base(g, max_clauses=2, p_alias=0.2)
+        names = base["names"]
+        sel = list(names)
+        group = None
+        outnames = list(names)
+        if len(names) >= 2 and g.rng.random() < 0.2:  # order by aggregate outputs
+            k = g.rng.choice(names)
+            x = g.rng.choice([y for y in names if y != k])
+            sel = [k, "COUNT(%s) AS ?n" % x]
+            outnames = [k, "?n"]
+            group = [k]
+        nkeys = g.rng.choice([0, 1, 1, 1, 2, 2, 3])
+        order = []
+        for _k in range(nkeys):
+            order.append((g.rng.choice(outnames), g.rng.random() < 0.4))
+        # consistent directions for repeated keys (the parser rejects contradictions)
+        seen = {}
+        order = [(x, seen.setdefault(x, dsc)) for x, dsc in order]
+        limit = g.rng.choice([None, None, 0, 1, 2, 3, 5, 50])
+        if not order and limit is None:
+            limit = g.rng.choice([0, 1, 2, 3])
+        kw = {"group": group} if group else {}
+        hb = b.add(base["graphs"], sel_text(base, sel, **kw))
+        ho = b.add(base["graphs"], sel_text(base, sel, order=order, **kw)) if order else hb
+        hr = b.add(base["graphs"], sel_text(base, sel, order=order, **kw)) if order else hb
+        hl = b.add(base["graphs"], sel_text(base, sel, order=order, limit='"%d"^^type:int64' % limit, **kw)) if limit is not None else None
+        plans.append((base, outnames, order, limit, hb, ho, hr, hl))
+    # statements whose LIMIT is not a non-negative int64 must be rejected
+    bad_limits = ['"-1"^^type:int64', '"-7"^^type:int64', '"1.5"^^type:float64', '"x"^^type:text', '"true"^^type:bool', '"2"^^type:float64']
+    errplans = []
+    for bl in bad_limits:
+        for _i in range(3 if tier == "quick" else 30):
+            base = clean_base(g, max_clauses=1)
+            errplans.append((bl, b.add(base["graphs"], sel_text(base, base["names"], limit=bl))))
+    b.run(d, "C12")
+    events, meta, stats = [], [], {"skipped_perr": 0}
+    distinct = set()
+    for base, outnames, order, limit, hb, ho, hr, hl in plans:
+        hs = [h for h in (hb, ho, hr, hl) if h is not None]
+        if note_hard(v, b, hs, stats):
+            continue
+        eb, rb = b.rows(hb, outnames)
+        if eb == "perr":
+            stats["skipped_perr"] += 1
+            continue
+        okeys = []
+        for x, dsc in order:
+            if x not in [o[0] for o in okeys]:
+                okeys.append((x, dsc))
+        ospec = [{"i": outnames.index(x) + 1, "desc": dsc} for x, dsc in okeys]
+        if order:
+            eo, ro = b.rows(ho, outnames)
+            er, rr = b.rows(hr, outnames)
+            if eo == "perr":
+                stats["skipped_perr"] += 1
+                continue
+            distinct.add(b.cases[ho]["text"])
+            events.append({"ev": "O", "prop": "C12", "order": ospec, "limit": -1, "base": rb, "baseerr": eb != "",
+                           "rows": ro, "rep": rr, "err": eo != "" or er != ""})
+            meta.append({"handles": [hb, ho], "err": b.res[ho]["err"][:200]})
+        if hl is not None:
+            el, rl = b.rows(hl, outnames)
+            if el == "perr":
+                stats["skipped_perr"] += 1
+                continue
+            distinct.add(b.cases[hl]["text"])
+            events.append({"ev": "O", "prop": "C12", "order": ospec, "limit": limit, "base": rb, "baseerr": eb != "",
+                           "rows": rl, "rep": [], "err": el != ""})
+            meta.append({"handles": [hb, hl], "err": b.res[hl]["err"][:200]})
+    for bl, h in errplans:
+        if note_hard(v, b, [h], stats):
+            continue
+        r = b.res[h]
+        events.append({"ev": "E", "prop": "C12", "err": bool(r["perr"] or r["err"])})
+        meta.append({"handles": [h], "limit": bl})
+    rejects, opens, states = finish_events("C12", v, events, meta, d, b)
+    v.cov.update({"states": states, "transitions": len(events), "traces_validated_against_impl": len(events),
+                  "judged": len(events) - opens, "open_not_judged": opens, "distinct_queries": len(distinct),
+                  "with_limit": sum(1 for e in events if e["ev"] == "O" and e["limit"] >= 0),
+                  "nontrivial_sorts": sum(1 for e in events if e["ev"] == "O" and e["order"] and len(e["base"]) > 1),
+                  "invalid_limit_statements": len(errplans), "hard_failures": stats.get("hard", 0),
+                  "parser_rejected_not_judged": stats["skipped_perr"], "rejected_events": len(rejects),
+                  "samples": [{"base": b.cases[m["handles"][0]]["text"], "variant": b.cases[m["handles"][-1]]["text"],
+                               "rows": b.res[m["handles"][-1]]["rows"][:3]} for m in meta[:3]]})
+    v.assumptions += ["ordered / limited results are judged against the RECORDED plain result of the same query",
+                      "key columns holding values of several kinds are not judged (open); ranks of printed forms and instants come from lib/bqlu.py"]
+
+
+# ------------------------------------------------------------------------------------------ C13 HAVING
+CONST_POOL = [bqlu.I(-5), bqlu.I(-3), bqlu.I(-4), bqlu.I(0), bqlu.I(2), bqlu.I(1), bqlu.F(5), bqlu.F(-2), bqlu.F(-6), bqlu.F(0),
+              bqlu.X("a"), bqlu.X("b"), bqlu.X("ab"), bqlu.B(1), bqlu.N(1), bqlu.N(2), bqlu.P(1), bqlu.P(2), bqlu.P(12),
+              {"k": "T", "v": 2}, {"k": "T", "v": 3}, {"k": "T", "v": 4}, {"k": "T", "v": 5}, {"k": "T", "v": 6}]
+
+
+def gen_expr(g, cols, depth, nodes, colkinds):
+    """appends nodes of a random expression over output columns; returns (index, text). Shape follows
+    the grammar: E := atom | NOT E | ( E ) | ( E ) AND E | ( E ) OR E"""
+    r = g.rng.random()
+    idx = len(nodes) + 1
+    blank = {"op": "cmp", "l": 0, "r": 0, "cop": "=", "lc": 0, "lk": "0", "lv": 0, "rc": 0, "rk": "0", "rv": 0}
+    if depth == 0 or r < 0.4:
+        node = dict(blank)
+        nodes.append(node)
+        lc = g.rng.randrange(len(cols))
+        node["lc"] = lc + 1
+        node["cop"] = g.rng.choice(["=", "<", ">"])
+        if g.rng.random() < 0.2 and len(cols) > 1:
+            rc = g.rng.randrange(len(cols))
+            node["rc"] = rc + 1
+            return idx, "%s %s %s" % (cols[lc], node["cop"], cols[rc])
+        # prefer a constant of a kind that occurs in the column
+        kinds = colkinds[lc]
+        pool = [c for c in CONST_POOL if c["k"] in kinds or (c["k"] == "X" and "S" in kinds)] if kinds and g.rng.random() < 0.8 else CONST_POOL
+        c = g.rng.choice(pool or CONST_POOL)
+        node["rk"], node["rv"] = c["k"], c["v"]
+        return idx, "%s %s %s" % (cols[lc], node["cop"], bqlu.cell_text(c, alt=g.rng.random() < 0.3))
+    if r < 0.55:
+        node = dict(blank, op="not")
+        nodes.append(node)
+        node["l"], t = gen_expr(g, cols, depth - 1, nodes, colkinds)
+        return idx, "NOT " + t
+    if r < 0.65:
+        return (lambda it: (it[0], "( %s )" % it[1]))(gen_expr(g, cols, depth - 1, nodes, colkinds))
+    node = dict(blank, op=g.rng.choice(["and", "or"]))
+    nodes.append(node)
+    node["l"], tl = gen_expr(g, cols, depth - 1, nodes, colkinds)
+    node["r"], tr = gen_expr(g, cols, depth - 1, nodes, colkinds)
+    return idx, "( %s ) %s %s" % (tl, node["op"].upper(), tr)
+
+
+def check_having(v, tier, d):
+    g = Gen(vlib.seed() * 7919 + 13)
+    n = 1500 if tier == "quick" else 40000
+    # pass 1: base queries (without HAVING) to learn the kinds of their columns
+    b1 = Batch()
+    bases = []
+    for _ in range(n):
+        base = clean_base(g, max_clauses=2, p_alias=0.3)
+        if g.rng.random() < 0.5:
+            # broad one-clause patterns over a large content: many rows of several kinds to filter
+            content = g.content(12, 22)
+            o = bqlgen.O(b="?o")
+            for k in ("ty", "id", "at"):
+                if g.rng.random() < 0.25:
+                    o[k] = "?o" + k
+            pr = bqlgen.P(b="?p", id="?pid" if g.rng.random() < 0.4 else "", at="?pat" if g.rng.random() < 0.3 else "")
+            if g.rng.random() < 0.3:
+                pr = bqlgen.P(pid=g.rng.choice(bqlgen.PIDS), ab="?t")
+            sb = bqlgen.S(b="?s", id="?sid" if g.rng.random() < 0.4 else "", ty="?sty" if g.rng.random() < 0.3 else "")
+            cls = [bqlgen.clause(sb, pr, o)]
+            base = {"clauses": cls, "names": bqlgen.pattern_names(cls), "graphs": g.split(content, g.rng.choice([1, 1, 2])),
+                    "glo": 0, "ghi": 0, "alt": False, "content": content}
+        names = base["names"]
+        sel, outnames, group = list(names), list(names), None
+        if len(names) >= 2 and g.rng.random() < 0.25:  # HAVING over aggregate outputs
+            k = g.rng.choice(names)
+            x = g.rng.choice([y for y in names if y != k])
+            sel, outnames, group = [k, "COUNT(%s) AS ?n" % x], [k, "?n"], [k]
+        kw = {"group": group} if group else {}
+        bases.append((base, sel, outnames, kw, b1.add(base["graphs"], sel_text(base, sel, **kw))))
+    b1.run(d, "C13a")
+    b = Batch()
+    plans = []
+    stats = {"skipped_perr": 0}
+    for base, sel, outnames, kw, h1 in bases:
+        if note_hard(v, b1, [h1], stats):
+            continue
+        eb, rb = b1.rows(h1, outnames)
+        if eb:
+            continue
+        colkinds = [set(r[i]["k"] for r in rb) for i in range(len(outnames))]
+        nodes = []
+        _, text = gen_expr(g, outnames, g.rng.choice([0, 1, 2, 3]), nodes, colkinds)
+        hb = b.add(base["graphs"], sel_text(base, sel, **kw))
+        hh = b.add(base["graphs"], sel_text(base, sel, having=text, **kw))
+        plans.append((outnames, nodes, text, hb, hh))
+    b.run(d, "C13")
+    events, meta = [], []
+    distinct = set()
+    for outnames, nodes, text, hb, hh in plans:
+        if note_hard(v, b, [hb, hh], stats):
+            continue
+        eb, rb = b.rows(hb, outnames)
+        eh, rh = b.rows(hh, outnames)
+        if eb == "perr" or eh == "perr":
+            stats["skipped_perr"] += 1
+            continue
+        distinct.add(b.cases[hh]["text"])
+        events.append({"ev": "H", "prop": "C13", "e": nodes, "base": rb, "baseerr": eb != "", "rows": rh, "err": eh != ""})
+        meta.append({"handles": [hb, hh], "having": text, "err": b.res[hh]["err"][:200]})
+    rejects, opens, states = finish_events("C13", v, events, meta, d, b)
+    v.cov.update({"states": states, "transitions": len(events), "traces_validated_against_impl": len(events),
+                  "judged": len(events) - opens, "open_not_judged": opens, "distinct_queries": len(distinct),
+                  "filtering_cases": sum(1 for e in events if 0 < len(e["rows"]) < len(e["base"])),
+                  "expressions_with_connectives": sum(1 for e in events if len(e["e"]) > 1),
+                  "rejected_by_parser_or_builder_not_judged": stats["skipped_perr"], "rejected_events": len(rejects),
+                  "samples": [{"query": b.cases[m["handles"][1]]["text"], "rows": b.res[m["handles"][1]]["rows"][:3]} for m in meta[:3]]})
+    v.assumptions += ["rows with HAVING are judged against Filter(Eval) of the RECORDED rows without it; expression trees follow the grammar's own (right-nested) parse",
+                      "statements the parser / expression builder rejects are not judged; < and > on nodes, predicates and bools are not judged"]
+
+
+# ------------------------------------------------------------------------------------------ C14 metamorphic
+def rename(q, mapping):
+    import copy
+    q2 = copy.deepcopy(q)
+    for c in q2["clauses"]:
+        for part in ("s", "p", "o"):
+            for k, val in c[part].items():
+                if isinstance(val, str) and val in mapping:
+                    c[part][k] = mapping[val]
+    q2["names"] = [mapping.get(x, x) for x in q["names"]]
+    return q2
+
+
+def check_meta(v, tier, d):
+    import itertools
+    g = Gen(vlib.seed() * 7919 + 14)
+    n = 500 if tier == "quick" else 8000
+    b = Batch()
+    plans = []
+    for _ in range(n):
+        base = clean_base(g, max_clauses=3, p_alias=0.15)
+        names = base["names"]
+        content = base["content"]
+        one = [content]
+        hb = b.add(one, sel_text(dict(base, graphs=one), names))
+        variants = []
+        # repetition and configuration (channel size, bulk size, processors)
+        for cfg in ({"chan": 0}, {"chan": 1, "procs": 1}, {"chan": 16, "procs": 2, "bulk": 1}, {"procs": 16}):
+            variants.append(("eq", names, b.add(one, sel_text(dict(base, graphs=one), names), **cfg), "config %s" % cfg))
+        # consistent renaming of the bindings
+        mp = {x: "?r%d" % i for i, x in enumerate(names)}
+        q2 = rename(dict(base, graphs=one), mp)
+        variants.append(("eq", q2["names"], b.add(one, sel_text(q2, q2["names"])), "renaming"))
+        # clause permutations (no OPTIONAL in the clean fragment)
+        perms = list(itertools.permutations(range(len(base["clauses"]))))[1:]
+        g.rng.shuffle(perms)
+        for pm in perms[:3]:
+            q3 = dict(base, graphs=one, clauses=[base["clauses"][i] for i in pm])
+            variants.append(("eq", names, b.add(one, sel_text(q3, names)), "clause order %s" % (pm,)))
+        # the data partitioned over 2-3 graphs
+        for k in (2, 3):
+            parts = g.split(content, k)
+            variants.append(("eq", names, b.add(parts, sel_text(dict(base, graphs=parts), names)), "partition over %d graphs" % k))
+        # supersets of the data: adding triples never removes rows
+        for _s in range(2):
+            extra = [t for t in range(1, len(bqlu.TRIPLES) + 1) if t not in content]
+            if extra:
+                sup = sorted(content + g.rng.sample(extra, min(len(extra), g.rng.randint(1, 3))))
+                variants.append(("sub", names, b.add([sup], sel_text(dict(base, graphs=[sup]), names)), "superset"))
+        # an ORDER BY over all columns determines a total order: same sequence every time
+        order = [(x, g.rng.random() < 0.3) for x in names]
+        ho = b.add(one, sel_text(dict(base, graphs=one), names, order=order))
+        variants.append(("seq-of", names, b.add(one, sel_text(dict(base, graphs=one), names, order=order), procs=1, chan=1), "total order repeat", ho))
+        plans.append((base, names, hb, variants))
+    b.run(d, "C14")
+    events, meta, stats = [], [], {"skipped_perr": 0}
+    for base, names, hb, variants in plans:
+        if note_hard(v, b, [hb], stats):
+            continue
+        eb, rb = b.rows(hb, names)
+        if eb == "perr":
+            stats["skipped_perr"] += 1
+            continue
+        for var in variants:
+            rel, vnames, hv, what = var[:4]
+            if note_hard(v, b, [hv], stats):
+                continue
+            ev_, rv = b.rows(hv, vnames)
+            if ev_ == "perr":
+                stats["skipped_perr"] += 1
+                continue
+            if rel == "seq-of":
+                ho = var[4]
+                eo, ro = b.rows(ho, vnames)
+                kinds_ok = all(len(set(r[i]["k"] for r in ro)) <= 1 for i in range(len(vnames)))
+                if not kinds_ok:
+                    continue  # a key column of several kinds: order not determined by the property
+                events.append({"ev": "M", "prop": "C14", "rel": "seq", "base": ro, "baseerr": eo != "", "rows": rv, "err": ev_ != ""})
+                meta.append({"handles": [ho, hv], "variant": what})
+                continue
+            events.append({"ev": "M", "prop": "C14", "rel": rel, "base": rb, "baseerr": eb != "", "rows": rv, "err": ev_ != ""})
+            meta.append({"handles": [hb, hv], "variant": what})
+    rejects, opens, states = finish_events("C14", v, events, meta, d, b)
+    kinds = {}
+    for m in meta:
+        k = m["variant"].split(" ")[0]
+        kinds[k] = kinds.get(k, 0) + 1
+    v.cov.update({"states": states, "transitions": len(events), "traces_validated_against_impl": len(events),
+                  "base_queries": len(plans), "variant_pairs": len(events), "variants_by_kind": kinds,
+                  "nonempty_base": sum(1 for e in events if e["base"]), "parser_rejected_not_judged": stats["skipped_perr"],
+                  "rejected_events": len(rejects),
+                  "samples": [{"base": b.cases[m["handles"][0]]["text"], "variant": b.cases[m["handles"][1]]["text"], "kind": m["variant"]} for m in meta[:4]]})
+    v.assumptions += ["relations are asserted between REAL results of variants of one query (bag equality, inclusion, identical sequence); no reference to the solutions oracle",
+                      "base queries are drawn from the fragment without OPTIONAL, FILTER, LIMIT and aggregates"]
+
+
 # ------------------------------------------------------------------------------------------ entry
 def check(prop):
     tier = vlib.tier()
@@ -264,6 +736,14 @@ def check(prop):
     d = vlib.scratch("bql-")
     if prop in ("C03", "C10"):
         check_q(prop, v, tier, d)
+    elif prop == "C11":
+        check_group(v, tier, d)
+    elif prop == "C12":
+        check_order(v, tier, d)
+    elif prop == "C13":
+        check_having(v, tier, d)
+    elif prop == "C14":
+        check_meta(v, tier, d)
     else:
         raise Infra("property %s not implemented in fam_bql" % prop)
     return v.finish()
